@@ -651,6 +651,7 @@ def common_summaries():
             if hit:
                 outs.append((s, mk_option(c[2])))
             else:
+                ex.drop_fields(s, c[2])     # an item the predicate rejects is dropped by find (it was moved out of the iterator)
                 outs += map_find(ex, s, '__verif::map_find', [c[0], c[1]])
         return outs
 
